@@ -112,7 +112,11 @@ type tval struct {
 }
 
 var nodeStrs = [][2]string{{"/u", "a"}, {"/u", "b"}, {"/t", "a"}, {"/u", "ab"}, {"/t", "b"}}
-var idStrs = []string{"p", "q", "p q", "P"}
+
+// "/ua" and "/ub" are the bytes type+id of the nodes /u<a> and /u<b>: PartialUUID of such a predicate = UUID of the node;
+// the text literals "p" and "q" (below) have the UUID that is the PartialUUID of the predicates with those ids.
+// Same bytes in DIFFERENT component positions are harmless for a correct store (separate indexes, position-wise keys).
+var idStrs = []string{"p", "q", "p q", "P", "/ua", "/ub"}
 var nodes []*node.Node
 var lits []*literal.Literal
 
@@ -164,6 +168,8 @@ func initVocabulary() {
 	mk(literal.Bool, true)
 	mk(literal.Text, "a b")
 	mk(literal.Int64, int64(-1))
+	mk(literal.Text, "p") // index 6: same bytes as predicate id "p"
+	mk(literal.Text, "q") // index 7: same bytes as predicate id "q"
 }
 
 func mkPred(id int, a *anchor) *pval {
@@ -320,6 +326,30 @@ func randomScenario(r *rand.Rand, usize int, wide bool) *scenario {
 	sc.nodeIx = r.Perm(len(nodes))[:nn]
 	sort.Ints(sc.nodeIx)
 	ids := r.Perm(len(idStrs))[:2]
+	// every other scenario: the same bytes occur in two component positions (predicate id = type+id of a pooled node,
+	// or a text literal = a pooled predicate id)
+	cross := r.Intn(4)
+	forceLit := -1
+	switch cross {
+	case 0: // predicate id "/ua" together with the node /u<a> (number 0) as subject and as object
+		if ids[0] != 4 && ids[1] != 4 {
+			ids[0] = 4
+		}
+		has := false
+		for _, n := range sc.nodeIx {
+			has = has || n == 0
+		}
+		if !has {
+			sc.nodeIx[0] = 0
+			sort.Ints(sc.nodeIx)
+		}
+	case 1: // predicate id "p" (or "q") together with the text literal of the same bytes
+		k := r.Intn(2)
+		if ids[0] != k && ids[1] != k {
+			ids[0] = k
+		}
+		forceLit = 6 + k
+	}
 	sort.Ints(ids)
 	// anchors: always the same instant in two zones and its +1ns neighbour, plus one or two others
 	as := []anchor{anchorPool[0], anchorPool[1], anchorPool[2]}
@@ -337,8 +367,22 @@ func randomScenario(r *rand.Rand, usize int, wide bool) *scenario {
 	for _, n := range sc.nodeIx[:1+r.Intn(len(sc.nodeIx))] {
 		sc.objs = append(sc.objs, mkObj(0, n, nil))
 	}
+	hasLit := false
 	for _, l := range r.Perm(len(lits))[:2+r.Intn(2)] {
 		sc.objs = append(sc.objs, mkObj(1, l, nil))
+		hasLit = hasLit || l == forceLit
+	}
+	if forceLit >= 0 && !hasLit {
+		sc.objs = append(sc.objs, mkObj(1, forceLit, nil))
+	}
+	if cross == 0 { // the node /u<a> also as an object
+		hasN := false
+		for _, o := range sc.objs {
+			hasN = hasN || (o.kind == 0 && o.n == 0)
+		}
+		if !hasN {
+			sc.objs = append(sc.objs, mkObj(0, 0, nil))
+		}
 	}
 	for _, pi := range r.Perm(len(sc.preds))[:2+r.Intn(3)] {
 		sc.objs = append(sc.objs, mkObj(2, 0, sc.preds[pi]))
